@@ -10,7 +10,8 @@ from .symex import Interp
 
 
 class Config:
-    def __init__(self, weights="none", ignore=False, rma="nan", ndim=1, coords=True, N=False, dims=True, tracing=False):
+    def __init__(self, weights="none", ignore=False, rma="nan", ndim=1, coords=True, N=False, dims=True, tracing=False, scalar_w=False):
+        self.scalar_w = scalar_w  # the weight is given as a bare scalar: numpy.isscalar(weights) / numpy.ndim(weights) == 0 hold
         self.tracing = tracing  # the per-call timing diagnostics of the index-cube aggregates are switched on
         self.weights = weights  # none | array | scalar
         self.ignore = ignore
@@ -21,7 +22,7 @@ class Config:
         self.dims = dims  # cube has dimensions
 
     def key(self):
-        return (self.weights, self.ignore, self.rma, self.ndim, self.coords, self.N, self.dims, self.tracing)
+        return (self.weights, self.ignore, self.rma, self.ndim, self.coords, self.N, self.dims, self.tracing, self.scalar_w)
 
     def __repr__(self):
         return "weights=%s ignore_missing=%s return_missing_as=%s ndim=%d coords=%s" % (self.weights, self.ignore, self.rma, self.ndim, self.coords)
@@ -96,6 +97,8 @@ def make_oracle(cfg, fields=None, selfname="self"):
             return None
         if t.op == "call":
             nm = tm.callee_name(t)
+            if nm == "numpy.isscalar" and t.args[1] and (root(t.args[1][0]) == "weights" or weights_like(t.args[1][0])):
+                return cfg.scalar_w if cfg.weights != "none" else False
             if nm == "builtins.isinstance" and len(t.args[1]) == 2 and tm.dotted(t.args[1][1]) == "builtins.tuple" and root(t.args[1][0]) == "return_missing_as":
                 return cfg.rma == "tuple"
             if nm == "numpy.isnan" and t.args[1] and root(t.args[1][0]) == "null":
